@@ -12,9 +12,14 @@ Specification `RuleHist.spec`: every evaluation yields, result by result, what a
   every step yields what the isolated run yields.
 * `C03_rules_interleaved` (unbounded; `HQuirks.ideal` = evaluation-local node state in addition): the same under EVERY
   history, overlapping evaluations included.
-* `C03_rules_sequential_partial` (the code as it is, `HQuirks.today`): the first evaluation of a query object, whatever
-  the history of `start`/`abandon` before it, consumed in any way. The full statement
-  (`¬ trigAbandoned ∧ ¬ trigOverlap ∧ ¬ trigStaleGrow → model today = spec`) is NOT proved; see the comment there.
+* NOT PROVED — `C03_rules_sequential_partial`, the statement for the code as it is (`HQuirks.today`):
+  `trigAbandoned ops = false → trigOverlap ops = false → trigStaleGrow ops = false →
+   model HQuirks.today pay dom a ops = spec pay dom a ops`.
+  Missing: (1) a complete evaluation leaves every selector's `_conclusion_` empty and every `Next`'s flags cleared,
+  (2) `evalG` does not depend on the `_is_false_` values it finds (each is written before it is read within one
+  uninterrupted chain of `yield`s), (3) with at most one branch attached since the last evaluation every `_parent_`
+  that the surgery reads equals the graph parent. (1)-(3) are bisimulation arguments over `Gen`; what holds today
+  outside the three triggers is covered by the correspondence only (the families never found a deviation there).
 * `C03_cex_rule_abandoned` (F-C03-4), `C03_cex_rule_suspended` (F-C03-5), `C03_cex_rule_stale_parent` (F-C03-6): the
   witnesses of the three findings, `decide`d; each also shows which repair removes it.
 -/
@@ -257,6 +262,177 @@ theorem C03_rules_interleaved (pay : Payload) (dom : List Nat) (a : Authored) (o
   · rfl
   · intro j; simp [RelOwn]
 
+/-! ### the repaired code: every history in which evaluations do not overlap -/
+
+/-- what relates the iterator that is being consumed to its specification, given the shared node state -/
+def RelSh (st : KSt) : Iter → SIter → Prop
+  | .fresh, .fresh => True
+  | .closed, .closed => True
+  | .susp rc nx _, .run rows k => (drain rc (nx st)).1 = rows.drop k
+  | _, _ => False
+
+theorem handleNext_repaired (m : Mach) (sm : SMach) (i : Nat) (rc : KSt → List Nat) (g : Gen) (rows : List Row) (k : Nat)
+    (hb : m.b = sm.b) (hg : (drain rc g).1 = rows.drop k) :
+    (handleNext HQuirks.repaired m i rc g).2 = (specNext sm i rows k).2 ∧
+    (handleNext HQuirks.repaired m i rc g).1.b = (specNext sm i rows k).1.b ∧
+    RelSh (handleNext HQuirks.repaired m i rc g).1.st ((handleNext HQuirks.repaired m i rc g).1.its i)
+      ((specNext sm i rows k).1.its i) := by
+  unfold handleNext specNext
+  cases hp : pump rc g with
+  | finished s =>
+    have h0 := pump_finished rc g s hp
+    rw [hg] at h0
+    rw [drop_nil_get rows k h0]
+    refine ⟨rfl, hb, ?_⟩
+    simp [HQuirks.repaired, Mach.set, SMach.set, RelSh]
+  | emitted row s nx =>
+    have h0 := pump_emitted rc g row s nx hp
+    rw [hg] at h0
+    obtain ⟨h1, h2⟩ := drop_cons_get rows k row _ h0
+    rw [h1]
+    refine ⟨rfl, hb, ?_⟩
+    simp [HQuirks.repaired, Mach.set, SMach.set, RelSh, h2]
+
+theorem beginEval_repaired (pay : Payload) (dom : List Nat) (m : Mach) (sm : SMach) (hb : m.b = sm.b) :
+    (beginEval pay dom HQuirks.repaired m = none ∧ freshRows pay dom sm.b = none) ∨
+    ∃ m' rc g, beginEval pay dom HQuirks.repaired m = some (m', rc, g) ∧ m'.b = m.b ∧
+      freshRows pay dom sm.b = some (drain rc g).1 := by
+  unfold beginEval freshRows
+  rw [← hb]
+  cases hmb : m.b with
+  | none => left; exact ⟨rfl, rfl⟩
+  | some b =>
+    dsimp only
+    cases hbt : b.tree with
+    | none => left; exact ⟨rfl, rfl⟩
+    | some t =>
+      right
+      dsimp only
+      exact ⟨_, _, _, rfl, rfl, rfl⟩
+
+theorem run_repaired (pay : Payload) (dom : List Nat) (blk : Nat) :
+    ∀ (ops : List HOp) (m : Mach) (sm : SMach) (cur : Option Nat),
+    m.b = sm.b → (∀ c, cur = some c → RelSh m.st (m.its c) (sm.its c)) → sequentialAux cur ops = true →
+    run pay dom blk HQuirks.repaired m ops = specRun pay dom blk sm ops := by
+  intro ops
+  induction ops with
+  | nil => intros; rfl
+  | cons op ops ih =>
+    intro m sm cur hb hr hs
+    simp only [run, specRun]
+    cases op with
+    | start i =>
+      simp only [step, specStep]
+      congr 1
+      refine ih _ _ (some i) ?_ ?_ ?_
+      · exact hb
+      · intro c hc
+        cases hc
+        simp [Mach.set, SMach.set, RelSh]
+      · simpa [sequentialAux] using hs
+    | abandon i =>
+      simp only [step, specStep]
+      congr 1
+      refine ih _ _ (if cur == some i then none else cur) ?_ ?_ ?_
+      · exact hb
+      · intro c hc
+        by_cases hci : cur = some i
+        · simp [hci] at hc
+        · have hcc : cur = some c := by simpa [hci] using hc
+          have hne : c ≠ i := by intro h; apply hci; rw [hcc, h]
+          simp only [Mach.set, SMach.set, hne, if_false]
+          exact hr c hcc
+      · simpa [sequentialAux] using hs
+    | next i =>
+      simp only [sequentialAux, Bool.and_eq_true, beq_iff_eq] at hs
+      obtain ⟨hci, hs⟩ := hs
+      have hri := hr i hci
+      simp only [step, specStep, Mach.get, SMach.get]
+      cases hm : m.its i with
+      | closed =>
+        cases hsi : sm.its i with
+        | closed => simp only []; congr 1; exact ih m sm cur hb hr hs
+        | fresh => rw [hm, hsi] at hri; exact hri.elim
+        | run rows k => rw [hm, hsi] at hri; exact hri.elim
+      | fresh =>
+        cases hsi : sm.its i with
+        | closed => rw [hm, hsi] at hri; exact hri.elim
+        | run rows k => rw [hm, hsi] at hri; exact hri.elim
+        | fresh =>
+          simp only []
+          rcases beginEval_repaired pay dom m sm hb with ⟨h1, h2⟩ | ⟨m', rc, g, h1, h2, h4⟩
+          · rw [h1, h2]
+            simp only []
+            congr 1
+            refine ih _ _ cur ?_ ?_ ?_
+            · exact hb
+            · intro c hc
+              have : c = i := by rw [hci] at hc; cases hc; rfl
+              subst this
+              simp [Mach.set, SMach.set, RelSh]
+            · exact hs
+          · rw [h1, h4]
+            simp only []
+            obtain ⟨e1, e2, e3⟩ := handleNext_repaired m' sm i rc g (drain rc g).1 0 (h2.trans hb) (by simp)
+            rw [e1]
+            congr 1
+            refine ih _ _ cur e2 ?_ ?_
+            · intro c hc
+              have : c = i := by rw [hci] at hc; cases hc; rfl
+              subst this
+              exact e3
+            · exact hs
+      | susp rc nx own =>
+        cases hsi : sm.its i with
+        | closed => rw [hm, hsi] at hri; exact hri.elim
+        | fresh => rw [hm, hsi] at hri; exact hri.elim
+        | run rows k =>
+          rw [hm, hsi] at hri
+          simp only []
+          have hg : (drain rc (nx (if HQuirks.repaired.sharedState = true then m.st else own))).1 = rows.drop k := by
+            simpa [HQuirks.repaired, RelSh] using hri
+          obtain ⟨e1, e2, e3⟩ := handleNext_repaired m sm i rc _ rows k hb hg
+          rw [e1]
+          congr 1
+          refine ih _ _ cur e2 ?_ ?_
+          · intro c hc
+            have : c = i := by rw [hci] at hc; cases hc; rfl
+            subst this
+            exact e3
+          · exact hs
+    | full i =>
+      simp only [step, specStep]
+      have hs' : sequentialAux none ops = true := by simpa [sequentialAux] using hs
+      rcases beginEval_repaired pay dom m sm hb with ⟨h1, h2⟩ | ⟨m', rc, g, h1, h2, h4⟩
+      · rw [h1, h2]
+        simp only []
+        congr 1
+        exact ih _ _ none (by exact hb) (by intro c hc; cases hc) hs'
+      · rw [h1, h4]
+        simp only []
+        congr 1
+        exact ih _ _ none (by simp only [HQuirks.repaired, Mach.set, SMach.set]; exact h2.trans hb)
+          (by intro c hc; cases hc) hs'
+    | grow items =>
+      simp only [step, specStep]
+      have hs' : sequentialAux none ops = true := by simpa [sequentialAux] using hs
+      congr 1
+      refine ih _ _ none ?_ (by intro c hc; cases hc) hs'
+      simp only []
+      rw [hb]
+      cases sm.b with
+      | none => rfl
+      | some b => simp only [Option.bind]; exact growRun_graph HQuirks.repaired rfl _ _ _
+
+/-- **every history in which evaluations do not overlap, after the two repairs**: whatever the rule program, the
+domain, the points at which iterators are abandoned (or just left), the number of repetitions and the growth of the
+tree between evaluations, every step yields what the isolated run of a freshly written query yields. -/
+theorem C03_rules_sequential (pay : Payload) (dom : List Nat) (a : Authored) (ops : List HOp)
+    (hseq : sequential ops = true) :
+    model HQuirks.repaired pay dom a ops = spec pay dom a ops := by
+  unfold model spec initMach
+  exact run_repaired pay dom a.blk ops _ _ none rfl (by intro c hc; cases hc) hseq
+
 /-! ### the three findings: witnesses (tests on concrete inputs, `decide`d) -/
 
 /-- F-C03-4. `x` over `[0, 1]`; rule `x ∈ {1}` concluding `K0`, with an `alternative(x ∈ {0})` that concludes
@@ -310,5 +486,12 @@ theorem C03_cex_rule_stale_parent :
     model { HQuirks.today with staleEvalParent := false } cexC_pay [0, 1, 2, 3] cexC_prog cexC_ops
       = spec cexC_pay [0, 1, 2, 3] cexC_prog cexC_ops := by
   decide +kernel
+
+/-- non-vacuity: a history with abandonment, repetition and growth that is sequential — and on which the code as it
+is deviates -/
+example : sequential (cexA_ops ++ cexC_ops) = true ∧
+    model HQuirks.today cexA_pay [0, 1] cexA_prog cexA_ops ≠ spec cexA_pay [0, 1] cexA_prog cexA_ops := by
+  decide +kernel
+
 
 end KrroodVerif.RuleHist
